@@ -329,6 +329,10 @@ def run(ctx: Ctx):
     front_end(ctx, {k: "R02.h" for k in "abcde"}, declare=False)
 
     ctx.rule("R02.g", "every scheme emitted for C receives the keyword arguments its builder takes (delta, stiff_states)", floor=4)
+    from .c18 import check_get_code_forwards
+
+    for opt_ in ("delta", "stiff_states"):
+        check_get_code_forwards(ctx, "R02.g", opt_)
     from . import common as _c
 
     _c.check_scheme_kwargs(ctx, "R02.g", "delta")
